@@ -261,7 +261,13 @@ def run_suite_monitored(timeout=1800):
     pncmon.suiteplugin monitors on.  -> dict (counts, violations,
     monitor_errors, exitstatus) or None when the run produced nothing."""
     import json
-    repo = os.environ.get('VERIF_REPO', '/repo')
+    src = os.environ.get('VERIF_REPO', '/repo')
+    # the suite leaves files next to its samples: run it on a scratch copy
+    # of the current working tree
+    repo = os.path.join(tmproot(), 'suite-tree-%d' % os.getpid())
+    shutil.rmtree(repo, True)
+    shutil.copytree(src, repo, ignore=shutil.ignore_patterns(
+        '.git', '__pycache__', '*.check', '*.pyc'))
     out = os.path.join(tmproot(), 'suite-%d.json' % os.getpid())
     env = dict(os.environ, VERIF_SUITE_OUT=out,
                PYTHONPATH=os.pathsep.join(
@@ -279,6 +285,7 @@ def run_suite_monitored(timeout=1800):
     except Exception:
         return None
     finally:
+        shutil.rmtree(repo, True)
         try:
             os.remove(out)
         except OSError:
